@@ -140,6 +140,9 @@ func (fi *FuncInfo) entryReachesAvoiding(to ssa.Instruction, avoid []ssa.Instruc
 // blockReachesAvoiding: can control flow from the start of block `from` reach
 // instruction `to` without executing any of the `avoid` instructions?
 func (fi *FuncInfo) blockReachesAvoiding(from *ssa.BasicBlock, to ssa.Instruction, avoid []ssa.Instruction) bool {
+	if to.Parent() != fi.fn || from.Parent() != fi.fn {
+		return true // not a question about this function's graph: fail closed
+	}
 	avoidIn := map[*ssa.BasicBlock]int{} // block -> smallest index of an avoided instr
 	for _, a := range avoid {
 		b := a.Block()
@@ -216,8 +219,16 @@ func reachFrom(starts []*ssa.BasicBlock, cut map[Edge]bool) map[*ssa.BasicBlock]
 }
 
 func reachFromNodes(starts []Node, cut map[Edge]bool) map[*ssa.BasicBlock]bool {
-	seen := map[Node]bool{}
 	out := map[*ssa.BasicBlock]bool{}
+	for n := range reachNodes(starts, cut) {
+		out[n.B] = true
+	}
+	return out
+}
+
+// reachNodes: the same, keeping the context each block was reached in.
+func reachNodes(starts []Node, cut map[Edge]bool) map[Node]bool {
+	seen := map[Node]bool{}
 	stack := append([]Node(nil), starts...)
 	for len(stack) > 0 {
 		n := stack[len(stack)-1]
@@ -226,10 +237,9 @@ func reachFromNodes(starts []Node, cut map[Edge]bool) map[*ssa.BasicBlock]bool {
 			continue
 		}
 		seen[n] = true
-		out[n.B] = true
 		stack = append(stack, succNodes(n, cut)...)
 	}
-	return out
+	return seen
 }
 
 // pathTo returns one block path from start to target avoiding cut edges (for reports).
